@@ -9,13 +9,13 @@ POS_NOTE = "Trusted: refchess (src/refchess.h), re-validated by perft at the sta
 CHECKS = {
     # id: (category, technique, text, note, design_ref)
     "C01": (MC, "explicit-state enumeration (BFS graphs + exhaustive small-material placements) of the real move generator vs a reference rules model",
-            "Every position of the enumerated spaces (reachable graphs from 43 seeds; all 3-men, 4-men and targeted 5-men placements incl. ep x pin, castling x attackers, double check) has its generated move list compared with an independent mailbox rules model; within those spaces the verdict is complete, outside them nothing is claimed.",
+            "Every position of the enumerated spaces (reachable graphs from 43 seeds, also walked by real do_move/undo_move on one engine object; all 3-men, 4-men (thorough: all 55 signatures) and targeted 5-men placements incl. ep x pin, castling x attackers, double check, pinned sliders) has its generated move list compared with an independent mailbox rules model; within those spaces the verdict is complete, outside them nothing is claimed.",
             POS_NOTE, "3/C01"),
     "C02": (MC, "explicit-state enumeration of every (position, legal move) edge of the same spaces, FEN after the real do_move vs reference make",
-            "Every edge of the enumerated graphs/placements plus a clock lattice: all six FEN fields after parse_uci+do_move must equal the reference model's successor.",
+            "Every edge of the enumerated graphs/placements plus a clock lattice: all six FEN fields after parse_uci+do_move must equal the reference model's successor; every move path <= 2-3 plies from every seed is also sent as one `position fen F moves ...` line through Uci::loop and compared via printboard.",
             POS_NOTE + " Half-move clocks <= 150.", "3/C02"),
     "C03": (MC, "explicit-state enumeration of edges and null moves + complete nested make/unmake trees on one engine object, snapshot oracle",
-            "Every edge/null move of the spaces and every node of complete make/unmake trees (depth 2-4 from 43 seeds): a snapshot of all public observables is compared before/after, at every unwind.",
+            "Every edge/null move of the spaces and every node of complete make/unmake trees (depth 2-5 from 43 seeds): a snapshot of all public observables is compared before/after, at every unwind; printboard+hash of the UCI position before = after go / stopped go / perft.",
             "Snapshot = FEN, keys, board, piece sets/counts, bitboards, rights, ep, clocks, repetition/draw answers, static eval, generated moves.", "3/C03"),
     "C04": (MC, "explicit-state enumeration with global identity->key / key->identity / pawn-placement->pawn-key maps over BFS graphs; neighbour-variant distinctness over placements",
             "Incremental key == from-scratch key on every edge (also null moves, unmake); every transposition arrives with the same key; positions differing in one identity component get different keys (collisions re-tested under re-randomised tables).",
@@ -24,16 +24,16 @@ CHECKS = {
             "All sessions of four lists (go-limit alphabet x searchmoves; Search::stop() injected at EVERY node visit of small searches; session histories incl. stopped first searches; every probed key x engine-producible poison alphabet): exactly one legal bestmove, legal PVs, no sanitizer report.",
             "Forked child per session, seeded zobrist tables, virtual clock (interposed steady_clock::now). Bounded to the seed positions and depths listed in evidence.", "3/C05"),
     "C06": (MC, "stateless model checking: cooperative scheduler over hooked synchronisation/progress points, all placements of the reader thread's commands among N0 search-thread steps; separate free-running TSan pass",
-            "Every interleaving at hook granularity of stop/isready with thread start, go() start-up, iteration starts and node visits of the first iterations (4 scripts): exactly one bestmove within B search-thread steps after stop returned, readyok never needs the search thread; TSan on the real binary reports no race in engine code.",
+            "Every interleaving at hook granularity of stop/isready with thread start, go() start-up, iteration starts and node visits of the first iterations and EVERY read/write of the stop flag (6 script x arena combinations, incl. a capture-rich arena with large quiescence trees): exactly one legal bestmove within B search-thread steps after stop returned, readyok printed, no thread blocked forever; TSan on the real binary reports no race in engine code.",
             "Scheduler serialises threads between hook points; weak-memory effects are outside it (TSan pass covers data races, by timing sampling). Promptness counted in search-thread steps.", "3/C06"),
-    "C07": (MC, "explicit-state enumeration: static predicates on every state; history predicates on every prefix of every game (all move sequences to depth N) of 11 arenas",
+    "C07": (MC, "explicit-state enumeration: static predicates on every state; history predicates on every prefix of every game (all move sequences to depth N) of 14 arenas and below spines of 796-1650 plies",
             "Check/mate/stalemate/material predicates on every enumerated position; occurred-before / threefold / 50-move / is_draw on every prefix of all games up to the arena depth, against a history model with identity = placement+side+rights+ep.",
             POS_NOTE, "3/C07"),
     "C08": (MC, "exhaustive enumeration of small-material positions x depths x table histories on the real search; oracle = exhaustive AND/OR mate solver on the reference model",
-            "Every placement with a mate in one of 10-14 signatures x go depth 1..D x {fresh, warm, after stopped search}: bestmove mates; every final `score mate y` of >500k sessions is verified by the solver (y as an upper bound in moves, cap 3/4).",
+            "Every placement with a mate in one of 11-26 signatures (half-move clock 0/98/99) x go depth 1..D x {fresh, warm, after a searchmoves-restricted search, after a stopped search}: bestmove mates; every final `score mate y` of all sessions (incl. placements with a check whose only reply is a pawn move, and the neighbourhoods of 16 tactical seeds) is verified by the solver (y as an upper bound in moves, cap 3/4, bounded solver effort).",
             "In-process sessions on the -Ofast build with tables reset to the freshly constructed state; announcements above the solver cap are counted as unverified (never as violations).", "3/C08"),
     "C09": (MC, "exhaustive enumeration of depth limits 1..45,60,100,1000 x all searchmoves subsets x table pre-states x virtual-clock steps on the real search",
-            "Iterations reported are exactly 1..m with m <= d, bestmove inside searchmoves, exactly one bestmove, and every finite-limit search ends inside the node horizon.",
+            "Iterations reported are exactly 1..m with m <= d, bestmove inside searchmoves, exactly one bestmove, and every finite-limit search ends inside the node horizon; also every ordered pair of 9 go commands of different kinds in one session and depth + time control in one go.",
             "Virtual clock advancing per read is the only environment assumption for time limits.", "3/C09"),
     "C10": (MC, "exhaustive enumeration of a session grammar over boundary-driving commands against the real binary; sanitizer (ASan, bounds-strict, _GLIBCXX_ASSERTIONS, valgrind subset) as oracle",
             "Every session [book]? ([ucinewgame]? position P . go G){1..2} over boundary positions (games of 0..1600 plies, 218 moves, ten of a kind, trivial draws for depth 39..1000) is run on the instrumented real binary.",
@@ -48,7 +48,7 @@ CHECKS = {
             "Every enumerated position with sufficient material is evaluated together with its colour mirror on the real evaluator.",
             "Mirror from refchess; one long-lived evaluator (cache purity is C14).", "3/C13"),
     "C14": (MC, "exhaustive enumeration of all operation sequences (length 4/5) over an alphabet constructed per process to collide in the pawn cache, vs a fresh evaluator; bounds on every evaluation of the spaces",
-            "Every sequence over {eval of 8 colliding positions, clear} equals the fresh-evaluator result; every evaluation of the listed spaces is strictly inside the non-mate range.",
+            "Every sequence over {eval of 8-10 colliding positions (same slot, slot 0, equal low key half), clear} equals the fresh-evaluator result; every placement of PP+piece families on a long-lived evaluator equals the value after a clear; seed graphs evaluate the same in two orders; every evaluation of the listed spaces (incl. 8-9 queens + 2 rooks v bare king) is strictly inside the non-mate range.",
             "Alphabet found by exhaustive key search against the process's random keys.", "3/C14"),
     "C15": (MC, "explicit-state enumeration of every (position, legal move) edge: predicates vs what the reference make does",
             "move_is_capture / move_is_quiet / move_gives_check on every edge of the spaces (incl. promotions, ep, castling, discovered and double checks).", POS_NOTE, "3/C15"),
@@ -63,7 +63,7 @@ CHECKS = {
             "Loaded table == complete records (direct view + contains); best = maximal weight; decoding of every move code in 4 positions; sampling never returns weight-0/foreign moves (exact) and matches weight shares within 5 sigma over the enumerated seed range.",
             "Frequency oracle is a tolerance over an enumerated seed range; codes with promotion field 5-7 are outside the format.", "3/C19"),
     "C20": (MC, "exhaustive enumeration of a stated lattice of clock states (7.7M / ~2e8 points) on the real function, -Ofast build",
-            "0 <= t <= 0.7 T and monotonicity along consecutive lattice times for every lattice point; both colours with a decoy opponent clock.",
+            "0 <= t <= 0.7 T and monotonicity along consecutive lattice times for every lattice point; both colours with a decoy opponent clock; plus the search seam: virtual thinking time of `go wtime T` sessions stays within 70 % of T.",
             "The lattice is what is decided; 1e16 tuples exist.", "3/C20"),
 }
 
@@ -101,7 +101,7 @@ def main():
         setup_cmd="bin/check setup",
         hooks=dict(
             guard="CHESSPLUSPLUS_VERIF",
-            enable="checks compile /repo/engine/*.cpp themselves (lib/vbuild.py) with -DCHESSPLUSPLUS_VERIF; hooks are inert unless a harness installs verif::point_cb",
+            enable="checks compile /repo/engine/*.cpp themselves (lib/vbuild.py) with -DCHESSPLUSPLUS_VERIF; hooks (VERIF_POINT observation points in search.cpp/uci.cpp and a drop-in HookedAtomicBool for the stop flag in search.h) are inert unless a harness installs verif::point_cb",
             baseline_off_cmd="cmake --build /repo/_build >/dev/null && ctest --test-dir /repo/_build -j8 --timeout 900",
             source_commits=hook_commits,
             add_only=True,
